@@ -78,6 +78,21 @@ check('C17', 'exploration',
       'deterministic simulation: job histories inside one forked interpreter lifetime vs fresh-lifetime reference; EOF-cut faults, simulated clock jumps, hash-seed variation',
       'DESIGN.md 5.2')
 
+check('C13', 'exploration',
+      'Seeded (document, configuration) pairs; every piece of body text is a unique marker whose owning sectioning unit '
+      'the generator knows. The job is rendered in three simulated settings - fresh forked lifetime; exec\'d/forked '
+      'lifetime with another PYTHONHASHSEED, permuted listdir/glob/walk results, jumped clock, other cwd and output '
+      'directory, empty template path; and the dirty directory left behind by E0 after another configuration of the same '
+      'document and unrelated documents were processed in the same lifetime - and only the job\'s own writes (SimFS write '
+      'log) are judged: exact expected partition of markers into files with document order and footnotes last, issued '
+      'names distinct and clean, names and marker->file map identical in all three settings.',
+      'Trusted: the generator\'s marker/level bookkeeping (LaTeX nesting by level) and html.parser text extraction. Normal '
+      'form: the last alternative of every generated wildcard is the documented $num-only fail-safe; template literals '
+      'contain no bad-chars; a raw % in bad-chars is doubled on the command line (option values are %-interpolated). The '
+      'input x configuration product is sampled; what simulation adds is the run-independence / environment / dirty-directory dimension.',
+      'deterministic simulation: three simulated process lifetimes per case (fork, exec with other hash seed and permuted listings, dirty-directory history), SimFS write-log oracle',
+      'DESIGN.md 5.3')
+
 NA = [
  ('C01', 'pure function of (text, catcode table): no schedule, clock, fault or history in the statement; would need a second lexer as oracle (differential testing, another family)'),
  ('C02', 'pure function of the macro program; oracle would be an independent TeX expander (differential testing)'),
